@@ -414,11 +414,13 @@ theorem statedifflength_resume_same_result (db : SDL.Db) (h o next : Nat) (hr : 
 
 /-! ## The history pruner's cutoff -/
 
-/-- FULL STRENGTH (repaired decision, proposed-fixes/C18-historyprunner-cutoff-guards.diff): on a
+/-- FULL STRENGTH (both guards: cutoff 0 ⇒ nothing to prune — applied in /repo by 322dd0d; cutoff never
+below the pruned prefix — proposed-fixes/C18-historyprunner-cutoff-guards.diff, PENDING): on a
 start without resume state, whenever the pruner decides to prune, the cutoff is positive, not below
 the prefix that is already pruned, not above the chain height, and both set-up steps can run (the
 stager only touches blocks that still have their state update; the restorer's seed block
-`cutoff - 1` exists). ABOUT A PROPOSED PATCH until it is applied (the harness probes the variant). -/
+`cutoff - 1` exists). The second guard is ABOUT A PROPOSED PATCH until it is applied (the harness
+probes both flags and runs the correspondence against the variant the tree has). -/
 theorem pruner_cutoff_sound (cfg : Pruner.Cfg) (hz : cfg.zeroCutoffRuns = false) (hb : cfg.cutoffBelowPruned = false)
     (i : Pruner.In) (hp : i.pinnedCut = none) (hpr : i.pruned ≤ i.height) (c : Nat)
     (h : Pruner.cutoff cfg i = some c) :
@@ -431,8 +433,8 @@ theorem pruner_cutoff_sound_partial (cfg : Pruner.Cfg) (i : Pruner.In) (c : Nat)
     (hc : 0 < c) (hp : i.pruned ≤ c) (hh : c ≤ i.height) : Pruner.setupOk i c = true :=
   Pruner.cutoff_partial cfg i c h hc hp hh
 
-/-- NEGATIONS for the current code, with witnesses: (1) pivot = retainedBlocks (7 blocks, L1 head 4,
-retained 4): cutoff 0, the restorer's seed block is 2^64-1; (2) a dead run pruned up to block 14 and
+/-- NEGATIONS with witnesses: (1) REGRESSION WITNESS for the defect fixed by 322dd0d — pivot = retainedBlocks (7 blocks, L1 head 4,
+retained 4): cutoff 0, the restorer's seed block is 2^64-1; (2) CURRENT code — a dead run pruned up to block 14 and
 the restart is configured with retained 9 (20 blocks, L1 head 17): cutoff 8 lies below the pruned prefix. -/
 theorem pruner_cutoff_unsound_pinned :
     Pruner.cutoff Pruner.Cfg.pinned ⟨6, 4, 4, 0, none⟩ = some 0 ∧ Pruner.setupOk ⟨6, 4, 4, 0, none⟩ 0 = false ∧
